@@ -268,7 +268,7 @@ def integ (A B C u : α) : α := (((A * u) * u) * u) / nat 3 + ((B * u) * u) / n
 def absPolyMids (thr t0 t1 A B C : α) : Option α × Option α :=
   if Scalar.abs A < thr ∧ thr < Scalar.abs B then
     (some (clamp (-C / B) t0 t1), none)
-  else if thr < Scalar.abs A then
+  else if thr ≤ Scalar.abs A then
     let res : α := (B * B) / ((nat 4 * A) * A) - C / A
     if nat 0 < res then
       (some (-B / (nat 2 * A) - Scalar.sqrt res), some (-B / (nat 2 * A) + Scalar.sqrt res))
